@@ -276,7 +276,9 @@ class Batch:
 
     def add(self, line, *info):
         self.lines.append(line)
-        self.pend.append(info)
+        # input-representation layer: the model comparison is batched and judged later -> a copy of the case carries the converted
+        # calls made since ctx.case(case) (Ctx attributes a mismatch only to conversions of the function its key names)
+        self.pend.append(tuple(tie_variants(dict(x), since_case=True) if isinstance(x, dict) else x for x in info))
 
 
 # ---------------------------------------------------------------- checks on one matrix
